@@ -178,6 +178,10 @@ def write_evidence(pid, mod, tier, seed, merged, wall, violations, known_seen, e
 def run_property(pid, tier, seed, only_shard=None):
     t0 = time.time()
     mod = load_prop(pid)
+    if os.path.isdir(REPLAYS) and only_shard is None:
+        for fn in os.listdir(REPLAYS):
+            if fn.startswith(pid + "-") and fn.endswith(".json"):
+                os.unlink(os.path.join(REPLAYS, fn))
     shards = mod.shards(tier, seed)
     if only_shard is not None:
         shards = [s for s in shards if str(s["id"]) == str(only_shard)]
